@@ -369,6 +369,51 @@ build!(v_vtbl_only_retyped, {
         fn sized(&self, k: u32) -> u32 where Self: Sized { k }
     }
 });
+// ---- pinned receivers written with a `mut` binding ---------------------------------------------------
+build!(pbase, {
+    use core::pin::Pin;
+    #[cglue_trait]
+    pub trait Iface {
+        fn alpha(&self, x: u32) -> u32;
+        fn pinned(mut self: Pin<&mut Self>, k: u32) -> u32 { let _ = &mut self; k }
+        fn gamma(&self, x: u32) -> u32;
+    }
+});
+build!(psame, {
+    use core::pin::Pin;
+    #[cglue_trait]
+    pub trait Iface {
+        fn alpha(&self, x: u32) -> u32;
+        fn pinned(mut self: Pin<&mut Self>, k: u32) -> u32 { let _ = &mut self; k }
+        fn gamma(&self, x: u32) -> u32;
+    }
+});
+build!(p_pinned_removed, {
+    use core::pin::Pin;
+    #[cglue_trait]
+    pub trait Iface {
+        fn alpha(&self, x: u32) -> u32;
+        fn gamma(&self, x: u32) -> u32;
+    }
+});
+build!(p_pinned_retyped, {
+    use core::pin::Pin;
+    #[cglue_trait]
+    pub trait Iface {
+        fn alpha(&self, x: u32) -> u32;
+        fn pinned(mut self: Pin<&mut Self>, k: u64) -> u32 { let _ = &mut self; k as u32 }
+        fn gamma(&self, x: u32) -> u32;
+    }
+});
+build!(p_pinned_not_mut, {
+    use core::pin::Pin;
+    #[cglue_trait]
+    pub trait Iface {
+        fn alpha(&self, x: u32) -> u32;
+        fn pinned(self: Pin<&mut Self>, k: u32) -> u32 { k }
+        fn gamma(&self, x: u32) -> u32;
+    }
+});
 // ---- external traits (#[cglue_trait_ext] objects, groups with an `ext::` member) -------------------
 // (written out in full: a macro_rules wrapper would give the generated `self` another hygiene context)
 pub mod xbase {
@@ -590,6 +635,10 @@ fn main() {
     case("vtbl_only_method_retyped", false, iface!(vbase), iface!(v_vtbl_only_retyped));
     case("where_sized_method_removed", false, iface!(vbase), iface!(v_sized_removed));
     case("where_sized_method_retyped", false, iface!(vbase), iface!(v_sized_retyped));
+    case("identical_pinned_mut_binding", true, iface!(pbase), iface!(psame));
+    case("pinned_mut_binding_same_interface", true, iface!(pbase), iface!(p_pinned_not_mut));
+    case("pinned_method_removed", false, iface!(pbase), iface!(p_pinned_removed));
+    case("pinned_method_retyped", false, iface!(pbase), iface!(p_pinned_retyped));
     macro_rules! xo { ($m:ident) => { <$m::glue::ShapeBox<'static> as StableAbi>::LAYOUT } }
     macro_rules! xg { ($m:ident) => { <$m::glue::XGBox<'static> as StableAbi>::LAYOUT } }
     case("ext_identical_object", true, xo!(xbase), xo!(xsame));
